@@ -429,6 +429,21 @@ fn sum_sequences(acc: &mut Acc) {
             }
         }
     }
+    // many equal terms: the counts at which a narrow counter or accumulator would wrap
+    for &x in &[1i128, 999_999_999, -1, -999_999_999, S + 500_000_000] {
+        for &n in &[254usize, 255, 256, 257, 65_535, 65_536, 65_537, 100_000] {
+            let ds = vec![mk_delta(x); n];
+            let want = x * n as i128;
+            acc.transitions += 2;
+            let r1 = guard(|| ds.iter().sum::<TimeDelta>());
+            let r2 = guard(|| ds.clone().into_iter().sum::<TimeDelta>());
+            if r1.as_ref().ok().map(|d| delta_ns(*d)) != Some(want) || r2.as_ref().ok().map(|d| delta_ns(*d)) != Some(want) {
+                acc.violation("TimeDelta::sum-many", format!("sum of {} x TimeDelta({} ns)", n, x), format!("{} ns", want), format!("{:?} / {:?}", r1, r2));
+            } else {
+                acc.hit(OP_OK);
+            }
+        }
+    }
     acc.traces += 1;
 }
 
